@@ -1,6 +1,7 @@
 package e2
 
 import (
+	"fmt"
 	"verifsim/detsim"
 	"verifsim/simsync"
 )
@@ -13,10 +14,10 @@ type Plan struct {
 	MissPm    int            `json:"f6_load_miss_pm,omitempty"`
 	FlushPm   int            `json:"f7_flush_pm,omitempty"`
 	Clients   [][]Call       `json:"clients"`
-	Churn     int            `json:"churn,omitempty"`        // C12: extra calls executed before handed-out strings are re-read
-	Cold      bool           `json:"cold_process,omitempty"` // run as the first thing of a fresh OS process: every lazily filled package-level table of the library is cold
+	Churn     int            `json:"churn,omitempty"`           // C12: extra calls executed before handed-out strings are re-read
+	Cold      bool           `json:"cold_process,omitempty"`    // run as the first thing of a fresh OS process: every lazily filled package-level table of the library is cold
 	Young     bool           `json:"young_reference,omitempty"` // the references are cross-checked against a brand-new oracle process that sees the calls in reverse order
-	FreshAt   int            `json:"fresh_at,omitempty"`     // 1-based index of the call of client 0 whose reference is recomputed in a fresh OS process of its own (0: none)
+	FreshAt   int            `json:"fresh_at,omitempty"`        // 1-based index of the call of client 0 whose reference is recomputed in a fresh OS process of its own (0: none)
 	Cfg       simsync.Config `json:"cfg"`
 }
 
@@ -66,6 +67,9 @@ func twinOf(t int) int {
 	n := statics[t].name
 	for i := range statics {
 		if statics[i].name == "Alt"+n || "Alt"+statics[i].name == n {
+			return i
+		}
+		if (n == "LocalA" && statics[i].name == "LocalB") || (n == "LocalB" && statics[i].name == "LocalA") {
 			return i
 		}
 	}
@@ -286,8 +290,47 @@ func GenC08(r *detsim.Rand, tier string) *Plan {
 		}
 	}
 	p.Clients = [][]Call{calls}
+	if r.Chance(1, 8) && len(calls) <= 200 {
+		addRegistrations(r, p)
+	}
 	freshSample(r, p, tier)
 	return p
+}
+
+// addRegistrations turns a single-client history into one that registers 1..3 NEW global validation functions on its
+// way, with calls that use those names (through Var and through the tag of a struct type made for this history)
+// before and after each registration.
+func addRegistrations(r *detsim.Rand, p *Plan) {
+	u := fmt.Sprintf("%x", r.Uint64()&0xffffffffff)
+	calls := p.Clients[0]
+	n := 1 + r.Intn(3)
+	use := func(j int) Call {
+		if r.Chance(1, 2) {
+			return Call{Entry: EVarG, Val: r.Intn(len(varVals)), Rule: j, U: u}
+		}
+		c := Call{Entry: []string{EStruct, EValidate, EStructForFn}[r.Intn(3)], Type: 3000 + j, Val: r.Intn(30), U: u}
+		if c.Entry != EStruct && r.Chance(1, 3) {
+			c.Tag = "v2"
+		}
+		return c
+	}
+	var out []Call
+	cut := func(k int) int { return len(calls) * k / (n + 1) }
+	for j := 0; j < n; j++ {
+		out = append(out, calls[cut(j):cut(j+1)]...)
+		for k := 0; k <= j; k++ { // uses before this registration: name j is still unknown, earlier ones are known
+			out = append(out, use(k))
+		}
+		out = append(out, Call{Entry: ERegister, Val: j, U: u})
+		for k := 0; k <= j; k++ {
+			out = append(out, use(k), use(k))
+		}
+	}
+	out = append(out, calls[cut(n):]...)
+	for k := 0; k < n; k++ {
+		out = append(out, use(k))
+	}
+	p.Clients[0] = out
 }
 
 // freshSample: in the thorough tier a sample of descriptors is additionally evaluated in a fresh OS process each.
@@ -368,6 +411,9 @@ func GenC12(r *detsim.Rand, tier string) *Plan {
 	}
 	p.Clients = [][]Call{calls}
 	p.Churn = []int{0, 50, 300, 2000}[r.Weighted([]int{2, 4, 3, 1})]
+	if r.Chance(1, 8) && len(calls) <= 200 {
+		addRegistrations(r, p)
+	}
 	freshSample(r, p, tier)
 	return p
 }
